@@ -22,7 +22,7 @@ STUBS = ["_aabb_volume -> uninterpreted value constrained by its contract: >= 0,
 OUTSIDE = ["more than 5 boxes in total; more than 3 batches", "floating-point rounding"]
 BOUNDS = {"quick": "total boxes n<=4 (all 6n coordinates + 6 query coordinates symbolic, unbounded), <=3 batches of every size>=0, modes none/sort/shuffle, with/without external data, second tree <=2 leaves",
           "thorough": "total boxes n<=5, second tree <=3 leaves"}
-WALL_BUDGET = {"quick": 400, "thorough": 900}
+WALL_BUDGET = {"quick": 300, "thorough": 600}
 EXPECTED_EXCEPTIONS = ()
 ASSUMPTIONS = ["boxes are well-formed: lo <= hi on every axis"]
 
